@@ -639,6 +639,21 @@ pub fn c19_instances(tier: Tier) -> Vec<Instance> {
             (0..n).map(|i| if i % 3 == 0 { f_big(c, 252, 200) } else if i % 3 == 1 { f_mci(c, 8) } else { f_keepalive(c) }).collect()
         };
         out.extend(drop_write_instances(c, "drop-write"));
+        // the version gate is one more thing a read may be busy with when it is dropped
+        let galpha: Vec<(&str, Vec<u8>)> = vec![("ver8", f_ver(c, 8)), ("ver9", f_ver(c, 9)), ("ka", f_keepalive(c)), ("small", f_small(c))];
+        for seq in sequences(&galpha, 2) {
+            if !seq.iter().any(|x| x.0.starts_with("ver")) { continue; }
+            let label: Vec<&str> = seq.iter().map(|x| x.0).collect();
+            let frames: Vec<Vec<u8>> = seq.iter().map(|x| x.1.clone()).collect();
+            let mut i = Instance::new(&format!("cancel-gate#{cname}#{}#tokio", label.join("+")), Impl::Tokio, c, frames);
+            i.verify_version = true;
+            i.chunks = Chunks::Boundary;
+            i.script_writes = true;
+            i.allow_eof = true;
+            i.cancel_budget = 2;
+            i.pending_budget = 1;
+            out.push(i);
+        }
         // a whole receive buffer of small packets from one transport read: 1530 packets come out of
         // the buffer without the transport being asked; a suspension point of the future's own anywhere
         // in that run is a point where the caller may drop it
